@@ -484,6 +484,39 @@ REC_PROGRAMS = {
             _log(('bin', '+', ('bin', '+', ('str', 'k'), _v('nn')), ('bin', '+', ('str', '/'), _v('kk'))))]),
         ('return', _v('kk'))])],
 }
+REDEF_PROGRAMS = {
+    # two definitions of one name in the branches of an if inside a loop; the tape alternates them
+    'if-else-in-loop': [('for', 'ww', None, ('call', 'arrayNew', [_n(1), _n(2), _n(3), _n(4)]), [
+        ('if', [(('call', 'cc', []), [('func', 'gg', [], False, [('return', ('str', 'A'))])])],
+         [('func', 'gg', [], False, [('return', ('str', 'B'))])]),
+        _log(('bin', '+', ('bin', '+', ('str', 'w'), _v('ww')), ('call', 'gg', [])))])],
+    # a default definition, conditionally overridden later in every round
+    'default-then-override': [('for', 'ww', None, ('call', 'arrayNew', [_n(1), _n(2), _n(3)]), [
+        ('func', 'gg', [], False, [('return', ('str', 'default'))]),
+        ('if', [(('call', 'cc', []), [('func', 'gg', [], False, [('return', ('str', 'override'))])])], None),
+        _log(('bin', '+', ('bin', '+', ('str', 'w'), _v('ww')), ('call', 'gg', [])))])],
+    # redefinition between calls at top level, and inside a while loop driven by the tape
+    'redefine-between-calls': [('func', 'gg', [], False, [('return', ('str', 'one'))]), _log(('call', 'gg', [])),
+                               ('func', 'gg', [], False, [('return', ('str', 'two'))]), _log(('call', 'gg', [])),
+                               ('while', ('call', 'cc', []), [('func', 'gg', [], False, [('return', ('str', 'three'))]), _log(('call', 'gg', [])),
+                                                              ('func', 'gg', [], False, [('return', ('str', 'four'))])]),
+                               _log(('call', 'gg', []))],
+}
+
+
+def check_redef(case, acc):
+    return check_program(REDEF_PROGRAMS[case['name']] + [('return', ('call', 'gg', []))], case, acc, case['bound'])
+
+
+def fam_redef(arg):
+    acc = Acc('redefinition')
+    for case in arg:
+        acc.cases += 1
+        check_redef(case, acc)
+        acc.sample(dict(case, source=ast.source(REDEF_PROGRAMS[case['name']])))
+    return acc.result()
+
+
 REC_ENTRY = {'fact': 'fact', 'fib': 'fib', 'walk': 'walk', 'evenodd': 'isEven', 'countdown': 'down'}
 REC_SITES = ('top', 'in-loop', 'surplus-and-missing')
 
@@ -618,6 +651,7 @@ def families(tier):
     load_impl()
     from ..engine.shard import split  # pylint: disable=import-outside-toplevel
     rc = rec_cases(tier)
+    rdc = [{'name': n, 'bound': 4} for n in REDEF_PROGRAMS]
     kwc = [{'k': k, 'use': u} for k in range(len(KEYWORDS)) for u in KW_USES]
     emc = [{'s': i, 'bound': 3 if tier == 'quick' else 4} for i in range(len(EMPTY_SHAPES))]
     be = [{'spec': sp, 'bound': 2 if tier == 'quick' else 3} for sp in chains.branch_end_specs()]
@@ -627,12 +661,13 @@ def families(tier):
             Family('branch_end', fam_branch_end, split(be, 48), 'an if chain inside a loop where every branch independently ends in nothing / break / continue / return; 3 loop kinds x 4 chain shapes x endings x 2 scopes x 3 surroundings', expected=len(be)),
             Family('keyword_names', fam_kw, split(kwc, 9), 'function and variable names that START with a keyword (returnItems, ifCount, forItems, ...) used as call statement, assignment target, in expressions, conditions and loop headers', expected=len(kwc)),
             Family('empty_bodies', fam_empty, [[c] for c in emc], 'loops and ifs with empty and comment-only bodies (a back edge directly after the loop label)', expected=len(emc)),
+            Family('redefinition', fam_redef, [[c] for c in rdc], 'two definitions of one function name alternating inside a loop (if/else branches, default + conditional override, redefinition between calls); deviation bound 4', expected=len(rdc)),
             Family('recursion', fam_rec, split(rc, 16), 'recursive functions that read their own locals / loop variables after the inner call returns (factorial, fibonacci, tree walk over a tape-chosen array, mutual recursion, loop + recursion) x argument values x call sites (top level, inside a loop, with surplus and missing arguments)', expected=len(rc)),
             Family('siblings', fam_siblings, split(sc, 64), 'ordered pairs (thorough: all pairs and depth-1 triples) of depth <= 2 chain bodies side by side in one block, at global scope, inside a function, inside a loop; deviation bound 2', expected=len(sc)),
             Family('funcs', fam_funcs, split(fc, 48), 'three functions: 5 body kinds each x call graph {chain, diamond, bounded recursion} x definition site {top level, inside an if block, inside a loop body}', expected=len(fc))]
 
 
-_CHECKS = {'keyword_names': check_kw, 'empty_bodies': check_empty, 'recursion': check_rec, 'chain': check_chain, 'small': check_small, 'truth': check_truth, 'siblings': check_siblings, 'funcs': check_funcs, 'branch_end': check_branch_end}
+_CHECKS = {'redefinition': check_redef, 'keyword_names': check_kw, 'empty_bodies': check_empty, 'recursion': check_rec, 'chain': check_chain, 'small': check_small, 'truth': check_truth, 'siblings': check_siblings, 'funcs': check_funcs, 'branch_end': check_branch_end}
 
 
 def replay(family, case):
